@@ -179,3 +179,119 @@ Section C15.
     - unfold int_in_range. cbn [int_lo int_hi]. lia.
     - intros _. unfold in_value_range, i64_min_abs, u64_max. lia.
   Qed.
+
+  Theorem to_value_image : forall v, T v.
+  Proof.
+    induction v using sval_ind'; unfold T; intros W S; cbn [cst_of to_value image]; cbn [wfs] in W; cbn [c15_side] in S.
+    - eauto.
+    - exists (VNum (number_of_int cf z)). split; [apply (tv_int_ok ty z W (side_int z S)) | apply (int_image ty z W (side_int z S))].
+    - change (finite32 b) with (f32_finite_bits b) in *. unfold tv_f32, ap. destruct (f32_finite_bits b) eqn:Ef; [|eauto].
+      destruct apf eqn:Ea; [|cbn in S; discriminate]. eexists. split; [reflexivity|]. apply (Hlit eq_refl), H32, Ef.
+    - change (finite64 b) with (f64_finite_bits b). unfold tv_f64, ap. destruct (f64_finite_bits b) eqn:Ef; [|eauto].
+      destruct apf eqn:Ea; (eexists; split; [reflexivity|]); [apply (Hlit eq_refl), H64, Ef | apply (H4 eq_refl), Ef].
+    - eauto.
+    - eauto.
+    - eexists. split; [reflexivity|]. rewrite (bytes_image s W). reflexivity.
+    - eauto.
+    - exact (IHv W S).
+    - eauto.
+    - eauto.
+    - eauto.
+    - exact (IHv W S).
+    - apply andb_true_iff in W as [_ W]. specialize (IHv W S). destruct (cst_of v) as [c|]; cbn [option_map].
+      + destruct IHv as [x [Hx Hi]]. rewrite Hx, Hi. cbn [bind option_map]. eexists. split; reflexivity.
+      + destruct IHv as [e [He Ke]]. rewrite He. cbn [bind]. eauto.
+    - apply andb_true_iff in W as [_ W]. pose proof (T_elems es H W S) as HE.
+      destruct (sequence (map cst_of es)) as [cs|]; cbn [option_map].
+      + destruct HE as [xs [Hx Hi]]. rewrite Hx, Hi. cbn [bind option_map]. eauto.
+      + destruct HE as [e [He Ke]]. rewrite He. cbn [bind]. eauto.
+    - pose proof (T_elems es H W S) as HE.
+      destruct (sequence (map cst_of es)) as [cs|]; cbn [option_map].
+      + destruct HE as [xs [Hx Hi]]. rewrite Hx, Hi. cbn [bind option_map]. eauto.
+      + destruct HE as [e [He Ke]]. rewrite He. cbn [bind]. eauto.
+    - pose proof (T_elems es H W S) as HE.
+      destruct (sequence (map cst_of es)) as [cs|]; cbn [option_map].
+      + destruct HE as [xs [Hx Hi]]. rewrite Hx, Hi. cbn [bind option_map]. eauto.
+      + destruct HE as [e [He Ke]]. rewrite He. cbn [bind]. eauto.
+    - apply andb_true_iff in W as [_ W]. pose proof (T_elems es H W S) as HE.
+      destruct (sequence (map cst_of es)) as [cs|]; cbn [option_map].
+      + destruct HE as [xs [Hx Hi]]. rewrite Hx, Hi. cbn [bind option_map]. eexists. split; reflexivity.
+      + destruct HE as [e [He Ke]]. rewrite He. cbn [bind]. eauto.
+    - apply andb_true_iff in W as [_ W].
+      pose proof (T_entries key_string key_pieces key_text kvs key_string_spec
+                    (Forall_impl _ (fun kv HP => proj2 HP) H) (side_entries _ W) S []) as HE.
+      destruct (sequence (map (fun kv => pair_opt (key_pieces (fst kv)) (cst_of (snd kv))) kvs)) as [ms|]; cbn [option_map].
+      + destruct HE as [es [Hes Htv]]. rewrite Hes, Htv. cbn [bind option_map]. eexists. split; reflexivity.
+      + destruct HE as [e [He Ke]]. rewrite He. cbn [bind]. eauto.
+    - pose proof (T_entries ok_key (fun k => Some (pieces_of k)) (fun k => Some k) fs field_key_spec H (side_fields _ W) S []) as HE.
+      destruct (sequence (map (fun kv => pair_opt (Some (pieces_of (fst kv))) (cst_of (snd kv))) fs)) as [ms|]; cbn [option_map].
+      + destruct HE as [es [Hes Htv]]. rewrite Hes, Htv. cbn [bind option_map]. eexists. split; reflexivity.
+      + destruct HE as [e [He Ke]]. rewrite He. cbn [bind]. eauto.
+    - apply andb_true_iff in W as [_ W].
+      pose proof (T_entries ok_key (fun k => Some (pieces_of k)) (fun k => Some k) fs field_key_spec H (side_fields _ W) S []) as HE.
+      destruct (sequence (map (fun kv => pair_opt (Some (pieces_of (fst kv))) (cst_of (snd kv))) fs)) as [ms|]; cbn [option_map].
+      + destruct HE as [es [Hes Htv]]. rewrite Hes, Htv. cbn [bind option_map]. eexists. split; reflexivity.
+      + destruct HE as [e [He Ke]]. rewrite He. cbn [bind]. eauto.
+    - eauto.
+    - discriminate S.
+  Qed.
+
+  (* ---- C15 ---- *)
+  Theorem C15_same_success v : wfs v = true -> c15_side apf v = true ->
+    ((exists j, to_value v = Ok j) <-> (exists bufs, serialize cf fmt32 fmt64 Compact v = Ok bufs)).
+  Proof.
+    intros W S. pose proof (to_value_image v W S) as HT. split.
+    - intros [j Hj]. destruct (cst_of v) as [c|] eqn:Ec.
+      + destruct (serialize_ok cf fmt32 fmt64 Compact v c W Ec) as [b [E _]]. eauto.
+      + destruct HT as [e [He _]]. rewrite Hj in He. discriminate.
+    - intros [bufs Hb]. destruct (serialize_ok_inv cf fmt32 fmt64 Compact v bufs W Hb) as [c [Ec _]]. rewrite Ec in HT.
+      destruct HT as [j [Hj _]]. eauto.
+  Qed.
+
+  (* both reject for the same reason class, at (line 0, column 0) *)
+  Theorem C15_same_rejection v : wfs v = true -> c15_side apf v = true ->
+    (exists e, to_value v = Err e O /\ keyerr e) <-> (exists e, serialize cf fmt32 fmt64 Compact v = Err e O /\ keyerr e).
+  Proof.
+    intros W S. pose proof (to_value_image v W S) as HT. split.
+    - intros [e [He _]]. destruct (cst_of v) as [c|] eqn:Ec.
+      + destruct HT as [j [Hj _]]. rewrite Hj in He. discriminate.
+      + apply (serialize_err cf fmt32 fmt64 Compact v W Ec).
+    - intros [e [He _]]. destruct (serialize_err_inv cf fmt32 fmt64 Compact v e O W He) as [Ec _]. rewrite Ec in HT. exact HT.
+  Qed.
+
+  (* the Value is the one the printed text denotes *)
+  Theorem C15_same_value v j bufs : wfs v = true -> c15_side apf v = true ->
+    to_value v = Ok j -> serialize cf fmt32 fmt64 Compact v = Ok bufs ->
+    exists c, concat bufs = render c /\ wfb c = true /\ denote cf c = Some j.
+  Proof.
+    intros W S Hj Hb. destruct (serialize_ok_inv cf fmt32 fmt64 Compact v bufs W Hb) as [c [Ec C]].
+    exists c. split; [exact C|]. split; [apply (C03_wf_nows cf fmt32 fmt64 H32 H64 v c W Ec)|].
+    rewrite (C03_denotes_image cf fmt32 fmt64 H32 H64 v c W Ec).
+    pose proof (to_value_image v W S) as HT. rewrite Ec in HT. destruct HT as [j' [Hj' Hi]]. rewrite Hj in Hj'. inversion Hj'. exact Hi.
+  Qed.
+
+  (* ... hence equal to what from_str(to_string(t)) returns (parser completeness cited as a hypothesis) *)
+  Hypothesis Hcomplete : forall bs v, Denotes cf bs v -> from_input (mkEnv RSlice TEof cf) bs = Ok v.
+
+  Theorem C15_parse_back v j bufs : wfs v = true -> c15_side apf v = true ->
+    to_value v = Ok j -> serialize cf fmt32 fmt64 Compact v = Ok bufs ->
+    (forall c, concat bufs = render c -> limit_disabled cf = false -> (cdepth c <= 127)%nat) ->
+    from_input (mkEnv RSlice TEof cf) (concat bufs) = Ok j.
+  Proof.
+    intros W S Hj Hb Hd. destruct (C15_same_value v j bufs W S Hj Hb) as [c [C [G D]]].
+    apply Hcomplete. exists [], c, []. rewrite app_nil_r. cbn [app]. repeat split; auto.
+  Qed.
+End C15.
+
+(* the exceptions are real: a finite f32 and an out-of-range i128 (model evaluation, no float texts needed beyond one literal) *)
+Example C15_exception_f32 :
+  to_value (mkCfg false true false false) (fun _ => [48; 46; 49]) (fun _ => []) (SF32 1036831949)
+  = Ok (VNum (NFloat (b64_of_b32 (f32_of_bits 1036831949)))).
+Proof. reflexivity. Qed.
+Example C15_exception_i128 :
+  to_value (mkCfg false true false false) (fun _ => []) (fun _ => []) (SInt I128 18446744073709551616) = Err NumberOutOfRange O
+  /\ exists b, serialize (mkCfg false true false false) (fun _ => []) (fun _ => []) Compact (SInt I128 18446744073709551616) = Ok b.
+Proof. split; [reflexivity | eexists; reflexivity]. Qed.
+
+Print Assumptions C15_same_success.
+Print Assumptions C15_same_value.
